@@ -9,6 +9,34 @@ use std::io;
 
 pub const OUTCAP: usize = 48;
 
+// The instances of this module contain literal chunks only.  The chunk list lives on the heap,
+// where the symbolic executor cannot see that an element is a literal, so it also explores
+// "this element is a date / MDC / id formatter"; those phantom paths are cut here (they cannot
+// occur for the instances, and the solver would prove them infeasible anyway).
+#[cfg(kani)]
+pub fn cut_local_now() -> chrono::DateTime<chrono::Local> {
+    crate::sym::cut()
+}
+#[cfg(kani)]
+pub fn cut_utc_now() -> chrono::DateTime<chrono::Utc> {
+    crate::sym::cut()
+}
+#[cfg(kani)]
+pub fn cut_mdc_get<Q: ?Sized, F, T>(_key: &Q, _f: F) -> T
+where
+    F: FnOnce(Option<&str>) -> T,
+{
+    crate::sym::cut()
+}
+#[cfg(kani)]
+pub fn cut_thread_id() -> usize {
+    crate::sym::cut()
+}
+#[cfg(kani)]
+pub fn cut_process_id() -> u32 {
+    crate::sym::cut()
+}
+
 /// Capturing sink; with `short`, every `write` accepts only a solver-chosen prefix (at least one
 /// byte) - "however the text arrives in pieces".
 pub struct Sink {
@@ -175,11 +203,11 @@ harnesses! {
     common {
         #[cfg_attr(kani, kani::stub(<chrono::Local as chrono::TimeZone>::offset_from_utc_datetime, crate::c16_time::stub_offset_from_utc))]
         #[cfg_attr(kani, kani::stub(<chrono::Local as chrono::TimeZone>::offset_from_local_datetime, crate::c16_time::stub_offset_from_local))]
-        #[cfg_attr(kani, kani::stub(chrono::Local::now, crate::c16_time::stub_local_now))]
-        #[cfg_attr(kani, kani::stub(chrono::Utc::now, crate::c16_time::stub_utc_now))]
-        #[cfg_attr(kani, kani::stub(log_mdc::get, crate::c09_pattern::stub_mdc_get))]
-        #[cfg_attr(kani, kani::stub(thread_id::get, crate::c09_pattern::stub_thread_id_get))]
-        #[cfg_attr(kani, kani::stub(std::process::id, crate::c09_pattern::stub_process_id))]
+        #[cfg_attr(kani, kani::stub(chrono::Local::now, crate::c10_width::cut_local_now))]
+        #[cfg_attr(kani, kani::stub(chrono::Utc::now, crate::c10_width::cut_utc_now))]
+        #[cfg_attr(kani, kani::stub(log_mdc::get, crate::c10_width::cut_mdc_get))]
+        #[cfg_attr(kani, kani::stub(thread_id::get, crate::c10_width::cut_thread_id))]
+        #[cfg_attr(kani, kani::stub(std::process::id, crate::c10_width::cut_process_id))]
         #[cfg_attr(kani, kani::stub(std::backtrace::Backtrace::capture, crate::util::stub_backtrace_capture))]
         #[cfg_attr(kani, kani::stub(<anyhow::Error as std::ops::Drop>::drop, crate::util::stub_anyhow_drop))]
     }
